@@ -22,6 +22,27 @@ class Sym(str):
         return "<%s>" % str(self)
 
 
+class Inst(object):
+    """an instance of the named (exception) class, as far as isinstance() is concerned"""
+    def __init__(self, cls_name):
+        self.cls_name = cls_name
+
+    def __hash__(self):
+        return hash(("Inst", self.cls_name))
+
+    def __eq__(self, other):
+        return isinstance(other, Inst) and other.cls_name == self.cls_name
+
+    def __repr__(self):
+        return "<%s instance>" % self.cls_name
+
+
+class FrozenDict(dict):
+    """a literal dict as a hashable value"""
+    def __hash__(self):
+        return hash(tuple(sorted(self.items(), key=repr)))
+
+
 class Rec(object):
     """a domain value with named fields (one element of a list the peer sent), hashable."""
 
@@ -133,6 +154,8 @@ def ev(e, env):
         return tuple(ev(x, env) for x in e.elts)
     if isinstance(e, ast.Set):
         return frozenset(ev(x, env) for x in e.elts)
+    if isinstance(e, ast.Dict) and all(k is not None for k in e.keys):
+        return FrozenDict((ev(k, env), ev(v, env)) for k, v in zip(e.keys, e.values))
     if isinstance(e, ast.UnaryOp):
         v = ev(e.operand, env)
         if isinstance(e.op, ast.Not):
@@ -255,6 +278,17 @@ def ev(e, env):
         base = ev(e.func.value, env)
         if isinstance(base, (frozenset, set, tuple)):
             return getattr(frozenset(base), e.func.attr)(*[frozenset(ev(a, env)) for a in e.args])
+    if isinstance(e, ast.Call) and isinstance(e.func, ast.Name) and e.func.id == "isinstance" and len(e.args) == 2 \
+            and not e.keywords and env.get("__exc__") is not None:
+        inst = ev(e.args[0], env)
+        if isinstance(inst, Inst):
+            senv = dict(env)
+            senv["__sym__"] = True
+            ty = ev(e.args[1], senv)
+            tys = ty if isinstance(ty, tuple) else (ty,)
+            if all(isinstance(t, str) for t in tys):
+                return any(env["__exc__"].is_sub(inst.cls_name, str(t).split(".")[-1]) for t in tys)
+        raise Unknown(key)
     if isinstance(e, ast.Call) and isinstance(e.func, ast.Name) and not e.keywords:
         args = [ev(a, env) for a in e.args]
         fn = {"min": min, "max": max, "len": len, "bool": bool, "int": int, "abs": abs,
@@ -291,6 +325,10 @@ def _helper(index, func):
 def _helper_uncached(index, func):
     if isinstance(func, ast.Name):
         c = [f for f in index.all_functions() if f.cls is None and f.name == func.id]
+    elif isinstance(func, ast.Attribute) and isinstance(func.value, ast.Name) and func.value.id in ("self", "cls"):
+        # a static method reached through the instance (unique name in the package)
+        c = [f for f in index.all_functions() if f.cls is not None and f.name == func.attr
+             and any(isinstance(d, ast.Name) and d.id == "staticmethod" for d in f.node.decorator_list)]
     elif isinstance(func, ast.Attribute) and isinstance(func.value, ast.Name):
         c = [f for f in index.all_functions() if f.cls is not None and f.cls.name == func.value.id
              and f.name == func.attr and any(isinstance(d, ast.Name) and d.id == "staticmethod"
@@ -305,7 +343,13 @@ def _call(fi, args, env, depth=0):
     a = fi.node.args
     if a.vararg or a.kwarg or a.kwonlyargs or len(args) > len(a.args) or depth > 3:
         raise Unknown("call of " + fi.qname)
-    local = {"__index__": env.get("__index__")}
+    local = {"__index__": env.get("__index__"), "__exc__": env.get("__exc__")}
+    if env.get("__sym__"):
+        local["__sym__"] = True
+    for k_, v_ in env.items():
+        if isinstance(k_, str) and k_.startswith("__const__"):
+            local[k_[9:]] = v_       # module-level constants the caller resolved
+            local[k_] = v_
     names = [x.arg for x in a.args]
     defaults = [None] * (len(names) - len(a.defaults)) + list(a.defaults)
     for i, nm in enumerate(names):
@@ -334,6 +378,23 @@ def _call(fi, args, env, depth=0):
                 continue
             if isinstance(st_, ast.Assign) and len(st_.targets) == 1 and isinstance(st_.targets[0], ast.Name):
                 local[st_.targets[0].id] = ev(st_.value, local)
+                continue
+            if isinstance(st_, ast.For) and not st_.orelse and not any(
+                    isinstance(x, (ast.Break, ast.Continue)) for b_ in st_.body for x in ast.walk(b_)):
+                items = list(ev(st_.iter, local))
+                if len(items) > 64:
+                    raise Unknown("long loop in helper " + fi.qname)
+                tg = st_.target
+                for it in items:
+                    if isinstance(tg, ast.Name):
+                        local[tg.id] = it
+                    elif isinstance(tg, ast.Tuple) and all(isinstance(x, ast.Name) for x in tg.elts) \
+                            and len(tg.elts) == len(it):
+                        for x, v_ in zip(tg.elts, it):
+                            local[x.id] = v_
+                    else:
+                        raise Unknown("loop target in helper " + fi.qname)
+                    run(st_.body)
                 continue
             raise Unknown("statement `%s` in helper %s" % (norm(st_)[:40], fi.qname))
     try:
